@@ -11,5 +11,8 @@ func main() {
 		"C03": scenarioC03,
 		"C04": scenarioC04,
 		"C10": scenarioC10,
+		"C05": scenarioC05,
+		"C06": scenarioC06,
+		"C09": scenarioC09,
 	})
 }
